@@ -10,12 +10,20 @@ RULE = ('A case is (base, message list, readiness answers, transport answer scri
         '0 / -1 / exception at EVERY write-call index of short queues; readiness False runs. The real Session.run loop runs in its '
         'thread over an in-memory transport. Concurrent cases: 2-4 real submitter threads calling Session.send while the worker '
         'writes under random short writes; put order observed at the queue. thorough: every composition of short frames '
-        'into accepted counts. distinct = distinct case; non-trivial = at least one non-empty message.')
+        'into accepted counts. Peer cases (quick 5 tls + 5 ssh + 2 unix, thorough 60 + 60 + 20): the REAL transports - TLSSession.connect to an '
+        'ssl server on 127.0.0.1, SSHSession.connect to an in-process paramiko server, UnixSocketSession over a socketpair - after a real '
+        'hello exchange (base:1.1 negotiated for 1.1 cases) the client submits 1-5 pool messages, half of the cases with one message of '
+        '40-400 kB while the scripted server starts reading 0-50 ms late (real short writes: paramiko accepts at most one packet per '
+        'send); the octets the server received are decoded by the strict receivers; the counts returned by the real _transport_write '
+        'are recorded in a subclass (resubmission of the unsent tail, accepted == received). A failing peer case is re-executed 3 times. '
+        'distinct = distinct case; non-trivial = at least one non-empty message.')
 ASSUMES = ['queue.Queue is FIFO and thread-safe; a transport returning n has taken data[:n] (n > len(data) means everything)',
            'messages are str: str.encode() is UTF-8; the model works on the octets',
            'CPython bytes %-formatting (b"%i") prints decimal without sign/padding: validated by every 1.1 case']
 TRUSTED = ['modelled, not verified: queue.Queue, threading, CPython bytes formatting/slicing',
-           'tools/harness/fakesession.py in-memory transport and selector shim (rebinds ncclient.transport.session.selectors/TICK)']
+           'tools/harness/fakesession.py in-memory transport and selector shim (rebinds ncclient.transport.session.selectors/TICK)',
+           'peer cases: tools/harness/c01_peers.py (scripted TLS/SSH/Unix servers, recording session subclasses), c12_peers.py (certificates, host key); '
+           'OpenSSL, paramiko and the loopback stack are peers, not verified; wall-clock bound 10 s per connection']
 
 BIG = 20000
 CHUNK_MAX = 4294967295
@@ -537,10 +545,15 @@ def oracle_peer(case, obs):
 
 def check_peer(ctx, case):
     from harness import c01_peers as q
+    from harness import fakesession_wire as fs
+    fs.uninstall()                  # the real transports need the real selectors / TICK in ncclient.transport.session
     c = dict(case, base=11 if case['base'] == 1 else 10)
     last = None
     for _ in range(4):              # wall-clock rig: report only what fails every time
-        obs = q.run_outbound(c)
+        def done(wire, base=case['base'], n=len(case['msgs'])):
+            d = strict_decode(base, wire)
+            return d is not None and len(d) >= n
+        obs = q.run_outbound(c, done)
         probs = oracle_peer(case, obs)
         last = (obs, probs, None)
         if not probs: break
